@@ -222,6 +222,10 @@ struct Engine
 	{ return {"all 17 translation units of /repo/src built from the working tree", "boost::asio::io_context"}; }
 	virtual std::vector<std::string> stub_components() const = 0;
 	virtual std::vector<std::string> assumptions(std::string const&) const { return {}; }
+	// do two violation classes denote the same failure (for confirming, minimising and gating a replay)?
+	virtual bool same_failure(std::string const& a, std::string const& b) const { return a == b; }
+	// must two replays of a violation have identical trace hashes? (not when the violation IS non-determinism)
+	virtual bool gate_on_trace_hash() const { return true; }
 };
 
 // set by the worker: called with the pinned plan before every sub-execution, so that a crash
